@@ -147,6 +147,12 @@ func Run(t *testing.T, p *plan.Plan) (res *Result) {
 			}
 		}
 	}()
+	if p.Scen.Server == "syslog-direct" {
+		// real datagram socket to a scripted syslog daemon: outside the bubble, strictly
+		// sequential (see syslogdirect.go)
+		runSyslogDirect(p, res)
+		return res
+	}
 	synctest.Test(t, func(t *testing.T) {
 		run(p, res)
 	})
@@ -282,6 +288,11 @@ func finish(s *sched) {
 	if s.p.Property == "C04" || s.p.Property == "C02" {
 		s.runTap()
 	}
+	seal(w, res)
+}
+
+// seal closes the history: result fields and the run's hashes.
+func seal(w *world.World, res *Result) {
 	res.Events = w.Events
 	w.DropHistory() // leaked goroutines keep the world reachable; do not let them pin the history
 	res.Faults = w.Faults
